@@ -17,8 +17,17 @@ var All = []Prop{
 	{"C02", []string{"FOLD", "ENUM", "OPTABLE", "SORTABLE", "SCAN", "DOCFLOW"},
 		"every bucket implementation compares iterated keys with range bounds by the comparison its inclusiveness needs; the indexes are told the stored previous and new documents of every change; every key operand that reaches the inverted index is case-folded iff its siblings are; every operator accepted by validation has a handler; each range operator scans exactly (start,end,inclusive) its name means; the order-preserving key codec maps every sign class to the right half of the key space monotonically and is inverted by the decoder",
 		"set equality of results with a model; postings after arbitrary update histories; _and/_or algebra", 30},
-	{"C04", []string{"KEYS", "ENUM"},
-		"every item a vector store writes is enumerable (IdFromKey), readable (ReadFrom) and fully removable (DeleteFrom) from a cold cache; every distance metric validation accepts is routed to a registered function",
+	{"C03", []string{"RANK"},
+		"the graph search appends a result only behind a comparison of the element's id with the entry node's id, only while fewer than limit results are held, with hybrid score minus weight times distance, and puts that very id into the returned id set; with a filter, greedy search adds to the filtered result set only points taken from the filter or tested with filter.Contains",
+		"that no deleted or duplicate point is returned after arbitrary histories, that distances are those of the configured metric, ordering, and the exactness regimes (values computed by greedy search over a history-built graph)", 7},
+	{"C05", []string{"RANK"},
+		"containsAll intersects and containsAny unites the term sets; with a filter the match set is intersected with it before any result is built; hybrid score is plus weight times score; results are sorted by score, highest first, before the head is cut to the limit; the search never mutates a bitmap that can be a cached posting set; a document with tokens always gets its record (frequencies, length) stored",
+		"the tf-idf arithmetic itself, analysis of text into tokens, corpus statistics after arbitrary histories", 7},
+	{"C06", []string{"MERGE", "RANK"},
+		"_or selects the union and _and the intersection of the sub-results; a merged result is appended only when its node id was not seen, otherwise its hybrid score is added to the entry held; in a conjunction results outside the intersection are never appended; every return of merged ranked results (beyond the single sub-query shortcut) comes after a sort by hybrid score, highest first; the page is results[min(offset,len):min(offset+limit,len)]; the sort-key comparator puts points lacking the key last and swaps operands per key when that key is descending; hybrid score signs of the three ranking indexes",
+		"the values of the scores, stability of ties, selected field contents and nested-path rebuilding", 12},
+	{"C04", []string{"KEYS", "ENUM", "RANK"},
+		"the flat scan stores a result only where no filter was given or the point is in it, grows its buffer only while len < cap with cap = limit, and scores minus weight times distance; every item a vector store writes is enumerable (IdFromKey), readable (ReadFrom) and fully removable (DeleteFrom) from a cold cache; every distance metric validation accepts is routed to a registered function",
 		"k-nearest-neighbour exactness and reported distance values", 12},
 	{"C07", []string{"TXSTATE", "SCRAP", "ERRS", "JOIN", "LOCKPAIR", "FLUSH"},
 		"a failed storage transaction always reaches Commit(true) and a successful one Commit(false); the cache manager scraps and unregisters every cache touched by a failed transaction; no error of a storage-layer call is dropped on the write path and the callback's error reaches bbolt's rollback; every pipeline stage's error channel is consumed and every write callback waits for the merged channel",
@@ -64,11 +73,9 @@ var All = []Prop{
 		"floating-point agreement with the scalar reference; haversine; cosine's normalisation assumption", 9},
 }
 
-var NotApplicable = map[string]string{
-	"C03": "every clause is about values computed by greedy search over a history-built graph; the only shape-level candidates are positional facts a refactor would move",
-	"C05": "matching and tf-idf ranking are functions of analysed token multisets and corpus statistics, not of the code's shape",
-	"C06": "score arithmetic, comparator results and slice bounds are runtime values; no table or path rule decides the resulting order",
-}
+// NotApplicable is empty since the build step: C03, C05 and C06 were declared not applicable in the
+// first design and are now claimed through the structural clauses of RANK and MERGE (DESIGN.md §9).
+var NotApplicable = map[string]string{}
 
 func Get(id string) *Prop {
 	for i := range All {
@@ -83,6 +90,9 @@ func Get(id string) *Prop {
 var Technique = map[string]string{
 	"C01": "key-table extraction over Put/Get/Delete call shapes, dominance of counter persistence over success exits, value-flow pairing of allocator ids",
 	"C02": "provenance slicing for case-fold sibling agreement, switch/case table extraction, phi-edge operator table, sign-class abstract interpretation of the key codec",
+	"C03": "edge dominance of the entry-node and limit tests over every result append, provenance and sign of the hybrid score product, gating of filtered-result-set adds by the filter",
+	"C05": "operator table by edge dominance, must-pass-through of the filter intersection, comparator direction, sort-before-cut ordering, alias analysis of mutated bitmaps, path-consistent walk of the per-document routine",
+	"C06": "edge dominance and must-pass-through in the merge (set algebra, de-duplication, conjunction gate, sort before every return), clamp/provenance shape of the page slice, partial evaluation of the sort-key comparator",
 	"C04": "writer/reader/enumerator key-table agreement per Storable (exhaustive path enumeration of loop-free methods), enum-switch exhaustiveness",
 	"C07": "typestate of cache transactions on the CFG, must-pass-through (scrap on failure), error-result use analysis over the VTA-reachable write path, goroutine join-chain analysis of select states",
 	"C08": "sibling completeness of flush methods, success-exit dominance, dirty-flag post-dominance, key tables, constant-key write/read pairing",
@@ -149,4 +159,6 @@ var RuleFloors = map[string]RuleFloor{
 	"VALID":     {12, []string{"C18"}},
 	"VECLEN":    {4, []string{"C18"}},
 	"COVERAGE":  {4, []string{"C20"}},
+	"RANK":      {17, []string{"C03", "C04", "C05", "C06"}},
+	"MERGE":     {10, []string{"C06"}},
 }
